@@ -1327,6 +1327,8 @@ class ComponentSpecification(experiment.model.interface.InternalRepresentationAt
                               key=lambda d: len(d.stringRepresentation), reverse=True)
 
             info_files = {}
+            # References to the working directory of a producer (no file part)
+            dir_refs = []
 
             for d in datarefs:
                 identifier = d.producerIdentifier.identifier
@@ -1362,6 +1364,8 @@ class ComponentSpecification(experiment.model.interface.InternalRepresentationAt
                         # VV: We're referencing a folder - raise an exception if we're expecting contents
                         if d.method in [DataReference.Output, DataReference.LoopOutput]:
                             raise ValueError("%s reference to folder instead of a file" % d.absoluteReference)
+                        if prod_ref is not None:
+                            dir_refs.append(d)
                         # VV: skip reference, we don't want it to end up in the `info_files` dictionary. This object
                         #     is used by the code that follows this loop to decide whether references point to files
                         #     or to producers of files/directories.
@@ -1414,6 +1418,15 @@ class ComponentSpecification(experiment.model.interface.InternalRepresentationAt
                         info_producers[idef] = p.memoization_hash
                     else:
                         info_producers[idef] = p.memoization_hash_fuzzy
+
+            # A reference to the working directory of a producer stands for the work of that producer, even when
+            # it is not mentioned in the arguments (e.g. :copy, :link)
+            info_dirs = []
+            for d in dir_refs:
+                prod_hash = info_producers.get(d.producerIdentifier.identifier)
+                if not prod_hash:
+                    raise ValueError("Producer %s does not have a %s hash" % (d.producerIdentifier.identifier, lbl))
+                info_dirs.append(':'.join(('producer' if not fuzzy else 'fuzzy', prod_hash, d.method)))
 
             arguments = self.commandDetails.get('arguments', '')  # type: str
 
@@ -1501,7 +1514,7 @@ class ComponentSpecification(experiment.model.interface.InternalRepresentationAt
             ret = {
                 # VV: We don't care about the names of the files or the producers that generated them, we only care
                 #     about the hashes of the files, and the reference methods
-                'files': [':'.join((info_files[k]['hash'], info_files[k]['method'])) for k in info_files],
+                'files': [':'.join((info_files[k]['hash'], info_files[k]['method'])) for k in info_files] + info_dirs,
                 'command': info_commandline,
                 'backend': info_backend,
             }
